@@ -18,7 +18,7 @@ import minif
 from common import sx, parse_sx
 from props import c06_real as R
 
-MODE_FIXED = int(__import__("os").environ.get("C06_SR_FIXED", "0"))          # the Lean model follows /repo HEAD (shortcut for any two dimensions of the same array)
+MODE_FIXED = int(__import__("os").environ.get("C06_SR_FIXED", "1"))          # the Lean model follows /repo HEAD (fix da89b83: the shortcut applies to the SAME dimension of the same array only)
 KNOWN_ID = "C06-same-array-cross-dimension"
 E = 4                   # every dimension has 4 elements
 
